@@ -872,18 +872,29 @@ Proof.
   destruct (HF k) as [m ->]. cbn [bind]. apply IH, HF.
 Qed.
 
+Lemma mark_node_ok ord cp o ps a km : exists m, mark_node ord cp o ps a km = Ok m.
+Proof.
+  unfold mark_node. destruct a as [|x a]; [eexists; reflexivity|].
+  destruct (visited o ps (x :: a) || _); [|eexists; reflexivity].
+  destruct (total_of_ok ord o ps (x :: a)) as [t ->]. cbn [bind].
+  destruct (display_value_ok ord o (simplified_or_zero t)) as [d ->]. cbn [bind]. eexists; reflexivity.
+Qed.
+
+Lemma mark_node_pre ord cp o ps a km m :
+  mark_node ord cp o ps a km = Ok m -> exists f, m_pre m = (a, f) :: m_pre km.
+Proof.
+  unfold mark_node. destruct a as [|x a]; [intros [= <-]; eexists; reflexivity|].
+  destruct (visited o ps (x :: a) || _); [|intros [= <-]; eexists; reflexivity].
+  destruct (total_of ord o ps (x :: a)); cbn [bind]; [|discriminate].
+  destruct (display_value ord o _); cbn [bind]; [|discriminate]. intros [= <-]. eexists; reflexivity.
+Qed.
+
 Lemma mark_ok ord cp o ps : forall fuel a, exists m, mark fuel ord cp o ps a = Ok m.
 Proof.
   induction fuel as [|n IH]; intros a; cbn [mark].
-  - cbn [bind]. destruct a as [|x a]; [eexists; reflexivity|].
-    destruct (visited o ps (x :: a) || _); [|eexists; reflexivity].
-    destruct (total_of_ok ord o ps (x :: a)) as [t ->]. cbn [bind].
-    destruct (display_value_ok ord o (simplified_or_zero t)) as [d ->]. cbn [bind]. eexists; reflexivity.
+  - cbn [bind]. apply mark_node_ok.
   - destruct (kids_marks_ok (mark n ord cp o ps) (children (map p_acct ps) a) (mkMarks 0 0 []) IH) as [km ->].
-    cbn [bind]. destruct a as [|x a]; [eexists; reflexivity|].
-    destruct (visited o ps (x :: a) || _); [|eexists; reflexivity].
-    destruct (total_of_ok ord o ps (x :: a)) as [t ->]. cbn [bind].
-    destruct (display_value_ok ord o (simplified_or_zero t)) as [d ->]. cbn [bind]. eexists; reflexivity.
+    cbn [bind]. apply mark_node_ok.
 Qed.
 
 Lemma bal_rows_ok ord cp o ps : exists rows, bal_rows ord cp o ps = Ok rows.
@@ -1113,4 +1124,796 @@ Proof.
   rewrite (filter_fresh_none (skipn st l1)).
   - cbn [map vsum bind fst snd sd_total]. reflexivity.
   - intros x Hx. apply Hnf. rewrite <- (firstn_skipn st l1). apply in_or_app. right. exact Hx.
+Qed.
+
+(* ------------------------------------------- the layout of a balance line reads back *)
+
+Fixpoint read_tree_st (S : list path) (rows : list (nat * path)) : list path * list path :=
+  match rows with
+  | [] => ([], S)
+  | (lvl, pn) :: rows' =>
+      let (full, S') := read_line S lvl pn in
+      let (r, S'') := read_tree_st S' rows' in (full :: r, S'')
+  end.
+
+Lemma read_tree_st_fst : forall rows S, fst (read_tree_st S rows) = read_tree S rows.
+Proof.
+  induction rows as [|[lvl pn] rows IH]; intros S; cbn [read_tree_st read_tree]; [reflexivity|].
+  destruct (read_line S lvl pn) as [full S'] eqn:E. specialize (IH S').
+  destruct (read_tree_st S' rows) as [r S'']. cbn [fst] in *. rewrite IH. reflexivity.
+Qed.
+
+Lemma read_tree_st_app : forall r1 r2 S,
+  read_tree_st S (r1 ++ r2) =
+  (let (a, S1) := read_tree_st S r1 in let (b, S2) := read_tree_st S1 r2 in (a ++ b, S2)).
+Proof.
+  induction r1 as [|[lvl pn] r1 IH]; intros r2 S; cbn [app read_tree_st].
+  - destruct (read_tree_st S r2). reflexivity.
+  - destruct (read_line S lvl pn) as [full S']. rewrite IH.
+    destruct (read_tree_st S' r1) as [a S1]. destruct (read_tree_st S1 r2) as [b S2]. reflexivity.
+Qed.
+
+Definition prefix_ok (A S : list path) : Prop := firstn (length A) S = A.
+
+Lemma prefix_ok_app A B S : prefix_ok (A ++ B) S -> prefix_ok A S.
+Proof.
+  unfold prefix_ok. intros H.
+  assert (E : firstn (length A) S = firstn (length A) (firstn (length (A ++ B)) S)).
+  { rewrite firstn_firstn. f_equal. rewrite app_length. lia. }
+  rewrite E, H. rewrite firstn_app, Nat.sub_diag, firstn_all. cbn [firstn]. apply app_nil_r.
+Qed.
+
+Lemma prefix_ok_length A S : prefix_ok A S -> (length A <= length S)%nat.
+Proof. unfold prefix_ok. intros H. rewrite <- H at 1. rewrite firstn_length. lia. Qed.
+
+Lemma nth_of_firstn {A} (d : A) : forall l (S : list A), nth l S d = nth l (firstn (Datatypes.S l) S) d.
+Proof.
+  induction l as [|l IH]; intros [|x S]; try reflexivity.
+  change (firstn (Datatypes.S (Datatypes.S l)) (x :: S)) with (x :: firstn (Datatypes.S l) S).
+  cbn [nth]. apply IH.
+Qed.
+
+Lemma nth_is_last {A} (d : A) : forall (L : list A) l, length L = Datatypes.S l -> nth l L d = last L d.
+Proof.
+  induction L as [|x L IH]; intros l HL; [discriminate|].
+  destruct L as [|y L].
+  - destruct l; [reflexivity|discriminate].
+  - destruct l as [|l]; [discriminate|].
+    transitivity (nth l (y :: L) d); [reflexivity|].
+    rewrite (IH l) by (cbn in *; lia). reflexivity.
+Qed.
+
+Section Layout.
+  Variable cnt : path -> bool.
+  Variable shown : path -> bool.
+  Variable all : list path.
+
+  (* the displayed-level ancestors of a among its prefixes of length 1..n, outermost first *)
+  Fixpoint ancs (n : nat) (a : path) : list path :=
+    match n with
+    | O => []
+    | S k => ancs k a ++ (if cnt (firstn n a) then [firstn n a] else [])
+    end.
+
+  Definition ancsx (a : path) : list path := ancs (length a - 1) a.
+
+  Lemma up_spacer_ancs n a : up_spacer cnt n a = length (ancs n a).
+  Proof.
+    induction n as [|k IH]; [reflexivity|]. cbn [up_spacer ancs]. rewrite app_length, IH.
+    destruct (cnt (firstn (S k) a)); cbn [length]; lia.
+  Qed.
+
+  Lemma up_cut_last n a : firstn (up_cut cnt n a) a = last (ancs n a) [].
+  Proof.
+    induction n as [|k IH]; [reflexivity|]. cbn [up_cut ancs].
+    destruct (cnt (firstn (S k) a)).
+    - rewrite last_last. reflexivity.
+    - rewrite app_nil_r. exact IH.
+  Qed.
+
+  Lemma up_cut_zero n a : up_spacer cnt n a = O -> up_cut cnt n a = O.
+  Proof.
+    induction n as [|k IH]; [reflexivity|]. cbn [up_spacer up_cut].
+    destruct (cnt (firstn (S k) a)); [discriminate|]. cbn. exact IH.
+  Qed.
+
+  Definition info (a : path) : nat * path := (spacer_of cnt a, partial_of cnt a).
+
+  (* one line: from a stack that holds the displayed-level ancestors, the reader recovers the
+     full name and leaves the ancestors in place *)
+  Lemma read_line_ok a S :
+    prefix_ok (ancsx a) S ->
+    read_line S (spacer_of cnt a) (partial_of cnt a) = (a, firstn (length (ancsx a)) S ++ [a]).
+  Proof.
+    unfold prefix_ok, read_line, set_level, spacer_of, partial_of, ancsx. intros H.
+    set (n := (length a - 1)%nat) in *. rewrite up_spacer_ancs.
+    destruct (length (ancs n a)) as [|l] eqn:El.
+    - rewrite up_cut_zero by (rewrite up_spacer_ancs; exact El). reflexivity.
+    - assert (Hn : nth l S [] = last (ancs n a) []).
+      { rewrite nth_of_firstn, H. apply nth_is_last. exact El. }
+      rewrite Hn, <- up_cut_last, firstn_skipn. reflexivity.
+  Qed.
+End Layout.
+
+Section LayoutTree.
+  Variable cnt : path -> bool.
+  Variable shown : path -> bool.
+  Variable all : list path.
+  Hypothesis shown_root : shown [] = false.
+
+  (* the accounts of the tree below a (and a), in the order of the accounts walk *)
+  Fixpoint pre (fuel : nat) (a : path) : list path :=
+    a :: match fuel with
+         | O => []
+         | S f => flat_map (pre f) (children all a)
+         end.
+
+  Lemma ancs_same_prefix n a b :
+    (n <= length a)%nat -> firstn (length a) b = a -> ancs cnt n b = ancs cnt n a.
+  Proof.
+    intros Hn Hp. induction n as [|k IH]; [reflexivity|]. cbn [ancs].
+    rewrite IH by lia.
+    assert (E : firstn (S k) b = firstn (S k) a).
+    { transitivity (firstn (S k) (firstn (length a) b)); [|rewrite Hp; reflexivity].
+      rewrite firstn_firstn. f_equal. lia. }
+    rewrite E. reflexivity.
+  Qed.
+
+  Lemma ancsx_child x k :
+    In k (children all x) ->
+    ancsx cnt k = ancsx cnt x ++ (match x with [] => [] | _ => if cnt x then [x] else [] end).
+  Proof.
+    intros Hk. pose proof (children_length _ _ _ Hk) as Hl. pose proof (children_prefix _ _ _ Hk) as Hp.
+    unfold ancsx. rewrite Hl. replace (S (length x) - 1)%nat with (length x) by lia.
+    rewrite (ancs_same_prefix (length x) x k (le_n _) Hp).
+    destruct x as [|s x]; [cbn; reflexivity|].
+    cbn [length]. replace (S (length x) - 1)%nat with (length x) by lia.
+    cbn [ancs]. change (S (length x)) with (length (s :: x)). rewrite firstn_all. reflexivity.
+  Qed.
+
+  Definition rows_of_list (l : list path) : list (nat * path) := map (info cnt) (filter shown l).
+
+  Lemma read_subtree : forall fuel x S,
+    prefix_ok (ancsx cnt x) S ->
+    (forall y, In y (pre fuel x) -> y <> [] -> cnt y = true -> shown y = true) ->
+    exists S', read_tree_st S (rows_of_list (pre fuel x)) = (filter shown (pre fuel x), S') /\
+               prefix_ok (ancsx cnt x) S'.
+  Proof.
+    induction fuel as [|f IH]; intros x S HS Hc.
+    - cbn [pre]. unfold rows_of_list. cbn [filter]. destruct (shown x) eqn:Es; cbn [map read_tree_st].
+      + unfold info. rewrite (read_line_ok cnt x S HS). eexists. split; [reflexivity|].
+        unfold prefix_ok in *. rewrite firstn_app, firstn_firstn, Nat.min_id.
+        rewrite firstn_length_le by (apply prefix_ok_length; exact HS).
+        rewrite Nat.sub_diag. cbn [firstn]. rewrite app_nil_r. exact HS.
+      + eexists. split; [reflexivity|exact HS].
+    - cbn [pre]. unfold rows_of_list. cbn [filter].
+      (* the stack after the line of x itself, and what the children need *)
+      set (A' := ancsx cnt x ++ match x with [] => [] | _ => if cnt x then [x] else [] end).
+      assert (Hkids : forall ks S1, prefix_ok A' S1 ->
+                (forall k, In k ks -> In k (children all x)) ->
+                exists S', read_tree_st S1 (rows_of_list (flat_map (pre f) ks)) =
+                           (filter shown (flat_map (pre f) ks), S') /\ prefix_ok A' S').
+      { induction ks as [|k ks IHk]; intros S1 H1 Hin.
+        - exists S1. split; [reflexivity|exact H1].
+        - cbn [flat_map]. unfold rows_of_list. rewrite filter_app, map_app, read_tree_st_app.
+          assert (Hk : In k (children all x)) by (apply Hin; left; reflexivity).
+          destruct (IH k S1) as (S2 & E2 & H2).
+          + rewrite (ancsx_child x k Hk). exact H1.
+          + intros y Hy. apply Hc. right. apply in_flat_map. exists k. split; assumption.
+          + fold (rows_of_list (pre f k)). rewrite E2.
+            rewrite (ancsx_child x k Hk) in H2. fold A' in H2.
+            destruct (IHk S2 H2) as (S3 & E3 & H3); [intros k' Hk'; apply Hin; right; exact Hk'|].
+            fold (rows_of_list (flat_map (pre f) ks)). rewrite E3. exists S3. split; [reflexivity|exact H3]. }
+      destruct (shown x) eqn:Es.
+      + cbn [map read_tree_st]. unfold info at 1. rewrite (read_line_ok cnt x S HS).
+        set (S1 := firstn (length (ancsx cnt x)) S ++ [x]).
+        assert (H1 : prefix_ok A' S1).
+        { unfold A', S1, prefix_ok. unfold prefix_ok in HS. rewrite HS.
+          destruct x as [|s x]; [rewrite shown_root in Es; discriminate|].
+          destruct (cnt (s :: x)).
+          - rewrite firstn_all. reflexivity.
+          - rewrite app_nil_r, firstn_app, Nat.sub_diag, firstn_all. cbn [firstn]. apply app_nil_r. }
+        destruct (Hkids (children all x) S1 H1 (fun k H => H)) as (S' & E & H').
+        fold (rows_of_list (flat_map (pre f) (children all x))). rewrite E.
+        exists S'. split; [reflexivity|]. apply (prefix_ok_app _ _ _ H').
+      + assert (H1 : prefix_ok A' S).
+        { unfold A'. destruct x as [|s x]; [rewrite app_nil_r; exact HS|].
+          destruct (cnt (s :: x)) eqn:Ec; [|rewrite app_nil_r; exact HS].
+          rewrite (Hc (s :: x) (or_introl eq_refl)) in Es; [discriminate|discriminate|exact Ec]. }
+        destruct (Hkids (children all x) S H1 (fun k H => H)) as (S' & E & H').
+        fold (rows_of_list (flat_map (pre f) (children all x))). rewrite E.
+        exists S'. split; [reflexivity|]. apply (prefix_ok_app _ _ _ H').
+  Qed.
+
+  (* reading the whole report back gives the full name of every displayed line, in order *)
+  Lemma read_tree_pre fuel :
+    (forall y, In y (pre fuel []) -> y <> [] -> cnt y = true -> shown y = true) ->
+    read_tree [] (rows_of_list (pre fuel [])) = filter shown (pre fuel []).
+  Proof.
+    intros Hc. destruct (read_subtree fuel [] []) as (S' & E & _); [reflexivity|exact Hc|].
+    rewrite <- read_tree_st_fst, E. reflexivity.
+  Qed.
+End LayoutTree.
+
+(* ------------------------------------------- bal_layout reads back to the account names *)
+
+Lemma kids_marks_pre (F : path -> res marks) (G : path -> list path) : forall ks acc m,
+  kids_marks F ks acc = Ok m ->
+  (forall k m', In k ks -> F k = Ok m' -> map fst (m_pre m') = G k) ->
+  map fst (m_pre m) = map fst (m_pre acc) ++ flat_map G ks.
+Proof.
+  induction ks as [|k ks IH]; intros acc m; cbn [kids_marks flat_map].
+  - intros [= <-] _. rewrite app_nil_r. reflexivity.
+  - destruct (F k) as [mk|] eqn:E; cbn [bind]; [|discriminate].
+    intros H HG. rewrite (IH _ _ H) by (intros k' m' Hk'; apply HG; right; exact Hk').
+    cbn [m_pre]. rewrite map_app, (HG k mk (or_introl eq_refl) E), app_assoc. reflexivity.
+Qed.
+
+Lemma mark_pre ord cp o ps : forall fuel a m,
+  mark fuel ord cp o ps a = Ok m -> map fst (m_pre m) = pre (map p_acct ps) fuel a.
+Proof.
+  induction fuel as [|f IH]; intros a m; cbn [mark pre].
+  - cbn [bind]. intros H. destruct (mark_node_pre _ _ _ _ _ _ _ H) as [fl ->]. reflexivity.
+  - destruct (kids_marks (mark f ord cp o ps) (children (map p_acct ps) a) (mkMarks 0 0 [])) as [km|] eqn:Ek;
+      cbn [bind]; [|discriminate].
+    pose proof (kids_marks_pre _ (pre (map p_acct ps) f) _ _ _ Ek
+                  (fun k m' _ H => IH k m' H)) as Hk. cbn [m_pre map app] in Hk.
+    intros H. destruct (mark_node_pre _ _ _ _ _ _ _ H) as [fl ->]. cbn [map fst]. rewrite Hk. reflexivity.
+Qed.
+
+Lemma pre_prefix all : forall fuel a y, In y (pre all fuel a) -> firstn (length a) y = a.
+Proof.
+  induction fuel as [|f IH]; intros a y; cbn [pre].
+  - intros [<-|[]]. apply firstn_all.
+  - intros [<-|H]; [apply firstn_all|]. apply in_flat_map in H as (k & Hk & Hy).
+    pose proof (IH k y Hy) as Hp. pose proof (children_length _ _ _ Hk) as Hl.
+    pose proof (children_prefix _ _ _ Hk) as Hpk.
+    transitivity (firstn (length a) (firstn (length k) y)); [rewrite firstn_firstn; f_equal; lia|].
+    rewrite Hp. exact Hpk.
+Qed.
+
+Lemma nodup_app_disjoint {A} (l1 l2 : list A) :
+  NoDup l1 -> NoDup l2 -> (forall x, In x l1 -> In x l2 -> False) -> NoDup (l1 ++ l2).
+Proof.
+  induction l1 as [|x l1 IH]; intros H1 H2 Hd; cbn [app]; [exact H2|].
+  inversion H1 as [|? ? Hx H1']; subst. constructor.
+  - intros H. apply in_app_or in H as [H|H]; [contradiction|]. apply (Hd x); [left; reflexivity|exact H].
+  - apply IH; [exact H1'|exact H2|]. intros y Hy1 Hy2. apply (Hd y); [right; exact Hy1|exact Hy2].
+Qed.
+
+Lemma pre_nodup all : forall fuel a, NoDup (pre all fuel a).
+Proof.
+  induction fuel as [|f IH]; intros a; cbn [pre]; [constructor; [intros []|constructor]|].
+  constructor.
+  - intros H. apply in_flat_map in H as (k & Hk & Hy).
+    pose proof (pre_prefix all f k a Hy) as Hp. pose proof (children_length _ _ _ Hk) as Hl.
+    apply (f_equal (@length _)) in Hp. rewrite firstn_length in Hp. lia.
+  - pose proof (children_nodup all a) as Hnd.
+    assert (Hin : forall k, In k (children all a) -> In k (children all a)) by auto.
+    revert Hnd Hin. generalize (children all a) at 1 2 4. intros ks.
+    induction ks as [|k ks IHk]; intros Hnd Hin; cbn [flat_map]; [constructor|].
+    inversion Hnd as [|? ? Hk Hnd']; subst.
+    apply nodup_app_disjoint.
+    + apply IH.
+    + apply IHk; [exact Hnd'|intros k' Hk'; apply Hin; right; exact Hk'].
+    + intros y Hy1 Hy2. apply in_flat_map in Hy2 as (k2 & Hk2 & Hy2).
+      pose proof (pre_prefix all f k y Hy1) as P1. pose proof (pre_prefix all f k2 y Hy2) as P2.
+      pose proof (children_length _ _ _ (Hin k (or_introl eq_refl))) as L1.
+      pose proof (children_length _ _ _ (Hin k2 (or_intror Hk2))) as L2.
+      rewrite L1 in P1. rewrite L2 in P2. apply Hk. congruence.
+Qed.
+
+Lemma flag_of_unique : forall (m : list (path * bool)) a f,
+  NoDup (map fst m) -> In (a, f) m -> flag_of m a = f.
+Proof.
+  unfold flag_of. induction m as [|[b g] m IH]; intros a f Hnd Hin; [destruct Hin|].
+  cbn [map fst] in Hnd. inversion Hnd as [|? ? Hb Hnd']; subst. cbn [existsb fst snd].
+  destruct Hin as [E|Hin].
+  - injection E as -> ->. rewrite (proj2 (path_eqb_eq a a) eq_refl), andb_true_r.
+    destruct f; [reflexivity|]. cbn [orb].
+    destruct (existsb (fun ab => snd ab && path_eqb (fst ab) a) m) eqn:Ex; [|reflexivity].
+    apply existsb_exists in Ex as ([c h] & Hc & Hh). cbn [fst snd] in Hh.
+    apply andb_true_iff in Hh as [_ Hh]. apply path_eqb_eq in Hh. subst c.
+    exfalso. apply Hb. apply in_map_iff. exists (a, h). split; [reflexivity|exact Hc].
+  - assert (Hne : path_eqb b a = false).
+    { destruct (path_eqb b a) eqn:E; [|reflexivity]. apply path_eqb_eq in E. subst b.
+      exfalso. apply Hb. apply in_map_iff. exists (a, f). split; [reflexivity|exact Hin]. }
+    rewrite Hne, andb_false_r. cbn [orb]. apply IH; assumption.
+Qed.
+
+Lemma map_filter_fst (Q : path * bool -> bool) (Q' : path -> bool) : forall m : list (path * bool),
+  (forall ab, In ab m -> Q ab = Q' (fst ab)) -> map fst (filter Q m) = filter Q' (map fst m).
+Proof.
+  induction m as [|ab m IH]; intros H; cbn [filter map]; [reflexivity|].
+  rewrite <- (H ab (or_introl eq_refl)). destruct (Q ab); cbn [map]; rewrite IH; try reflexivity;
+    intros x Hx; apply H; right; exact Hx.
+Qed.
+
+Lemma mark_root_pre ord cp o ps fuel m :
+  mark fuel ord cp o ps [] = Ok m -> exists km, m_pre m = ([], false) :: km.
+Proof.
+  destruct fuel as [|f]; cbn [mark].
+  - cbn [bind mark_node]. intros [= <-]. eexists; reflexivity.
+  - destruct (kids_marks _ _ _) as [km|]; cbn [bind mark_node]; [|discriminate]. intros [= <-]. eexists; reflexivity.
+Qed.
+
+(* a tree-form balance report whose displayed levels are all printed (layout_ok) reads back,
+   line by line, to the full account names *)
+Lemma layout_reads_back_gen ord cp o ps rows :
+  o_flat o = false ->
+  layout_ok ord cp o ps = Ok true ->
+  bal_layout ord cp o ps = Ok rows ->
+  read_tree [] (map (fun l => (l_spacer l, l_partial l)) rows) = map l_acct rows.
+Proof.
+  unfold layout_ok, bal_layout. intros Hflat.
+  destruct (mark (max_depth ps) ord cp o ps []) as [m|] eqn:Em; cbn [bind]; [|discriminate].
+  intros [= Hok] [= <-]. rewrite Hflat.
+  set (all := map p_acct ps) in *. set (cnt := counted (m_pre m) all) in *.
+  set (shown := fun a => flag_of (m_pre m) a && disp_pred o a).
+  pose proof (mark_pre _ _ _ _ _ _ _ Em) as Hpre. fold all in Hpre.
+  assert (Hnd : NoDup (map fst (m_pre m))) by (rewrite Hpre; apply pre_nodup).
+  assert (HR : map fst (filter (fun ab => snd ab && disp_pred o (fst ab)) (m_pre m)) =
+               filter shown (pre all (max_depth ps) [])).
+  { rewrite <- Hpre. apply map_filter_fst. intros [a f] Hin. unfold shown. cbn [fst snd].
+    rewrite (flag_of_unique _ _ _ Hnd Hin). reflexivity. }
+  cbv iota. rewrite !map_map. cbn [l_spacer l_partial l_acct].
+  transitivity (read_tree [] (map (info cnt) (map fst (filter (fun ab => snd ab && disp_pred o (fst ab)) (m_pre m)))));
+    [rewrite map_map; reflexivity|].
+  change (map (fun x : path * bool => fst x)) with (map (@fst path bool)).
+  rewrite HR. apply (read_tree_pre cnt shown all).
+  - unfold shown. destruct (mark_root_pre _ _ _ _ _ _ Em) as [km Hm].
+    rewrite (flag_of_unique (m_pre m) [] false Hnd); [reflexivity|]. rewrite Hm. left. reflexivity.
+  - intros y Hy Hne Hc. rewrite <- Hpre in Hy. apply in_map_iff in Hy as ([a f] & <- & Hin).
+    rewrite forallb_forall in Hok. specialize (Hok _ Hin). cbn [fst] in *.
+    destruct a as [|s a]; [contradiction Hne; reflexivity|].
+    fold cnt in Hok. rewrite Hc in Hok. exact Hok.
+Qed.
+
+Lemma read_tree_flat : forall (l : list path) S, read_tree S (map (fun a => (O, a)) l) = l.
+Proof.
+  induction l as [|a l IH]; intros S; cbn [map read_tree read_line]; [reflexivity|].
+  rewrite IH. reflexivity.
+Qed.
+
+Lemma layout_flat_reads_back_gen ord cp o ps rows :
+  o_flat o = true ->
+  bal_layout ord cp o ps = Ok rows ->
+  read_tree [] (map (fun l => (l_spacer l, l_partial l)) rows) = map l_acct rows.
+Proof.
+  unfold bal_layout. intros Hflat.
+  destruct (mark (max_depth ps) ord cp o ps []) as [m|]; cbn [bind]; [|discriminate].
+  intros [= <-]. rewrite Hflat. cbv iota. rewrite !map_map. cbn [l_spacer l_partial l_acct].
+  set (F := filter _ (m_pre m)).
+  transitivity (read_tree [] (map (fun a => (O, a)) (map fst F))); [rewrite map_map; reflexivity|].
+  rewrite read_tree_flat. reflexivity.
+Qed.
+
+(* the lines of bal_layout are the rows of bal_rows *)
+Lemma bal_layout_accounts ord cp o ps rows lrows :
+  bal_rows ord cp o ps = Ok rows -> bal_layout ord cp o ps = Ok lrows ->
+  map l_acct lrows = map b_acct rows.
+Proof.
+  unfold bal_rows, bal_layout.
+  destruct (mark (max_depth ps) ord cp o ps []) as [m|]; cbn [bind]; [|discriminate].
+  intros H [= <-]. rewrite map_map.
+  set (L := map fst (filter (fun ab => snd ab && disp_pred o (fst ab)) (m_pre m))) in *.
+  clearbody L. revert rows H. induction L as [|a L IH]; intros rows; cbn [map_res' map].
+  - intros [= <-]. reflexivity.
+  - destruct (brow_of ord o ps a) as [b|] eqn:Eb; cbn [bind]; [|discriminate].
+    destruct (map_res' (brow_of ord o ps) L) as [bs|] eqn:El; cbn [bind]; [|discriminate].
+    intros [= <-]. cbn [map]. rewrite (brow_of_acct _ _ _ _ _ Eb), (IH bs eq_refl).
+    destruct (o_flat o); reflexivity.
+Qed.
+
+(* ---------------- mark_accounts (tree form): every displayed level is a printed line *)
+
+Lemma is_prefix_trans a b c : is_prefix a b = true -> is_prefix b c = true -> is_prefix a c = true.
+Proof.
+  intros H1 H2. pose proof (is_prefix_length _ _ H1) as Hl.
+  apply is_prefix_spec in H1. apply (prefix_trans_firstn a b c H1 Hl H2).
+Qed.
+
+Lemma same_length_prefix k k' z :
+  length k = length k' -> is_prefix k z = true -> is_prefix k' z = true -> k = k'.
+Proof.
+  intros Hl H1 H2. apply is_prefix_spec in H1. apply is_prefix_spec in H2. rewrite Hl in H1. congruence.
+Qed.
+
+Definition underf (k : path) (ab : path * bool) : bool := is_prefix k (fst ab).
+
+Lemma existsb_restrict (Q : path * bool -> bool) k : forall L,
+  (forall ab, Q ab = true -> underf k ab = true) ->
+  existsb Q L = existsb Q (filter (underf k) L).
+Proof.
+  intros L HQ. induction L as [|ab L IH]; cbn [existsb filter]; [reflexivity|].
+  destruct (underf k ab) eqn:E; cbn [existsb]; rewrite IH; [reflexivity|].
+  destruct (Q ab) eqn:EQ; [|reflexivity]. rewrite (HQ ab EQ) in E. discriminate.
+Qed.
+
+Lemma flag_of_restrict L k y :
+  is_prefix k y = true -> flag_of L y = flag_of (filter (underf k) L) y.
+Proof.
+  intros Hy. unfold flag_of. apply existsb_restrict. intros ab H.
+  apply andb_true_iff in H as [_ H]. apply path_eqb_eq in H. unfold underf. rewrite H. exact Hy.
+Qed.
+
+Lemma cwf_restrict L all k y :
+  is_prefix k y = true -> cwf L all y = cwf (filter (underf k) L) all y.
+Proof.
+  intros Hy. unfold cwf. f_equal. apply filter_ext_in'. intros c Hc.
+  apply existsb_restrict. intros ab H. apply andb_true_iff in H as [_ H]. unfold underf.
+  apply (is_prefix_trans k y); [exact Hy|]. apply (is_prefix_trans y c); [|exact H].
+  apply is_prefix_spec. apply (children_prefix _ _ _ Hc).
+Qed.
+
+Lemma counted_restrict L all k y :
+  is_prefix k y = true -> counted L all y = counted (filter (underf k) L) all y.
+Proof.
+  intros Hy. unfold counted. rewrite (cwf_restrict L all k y Hy), (flag_of_restrict L k y Hy). reflexivity.
+Qed.
+
+Lemma filter_all_true {A} (P : A -> bool) l : (forall x, In x l -> P x = true) -> filter P l = l.
+Proof.
+  induction l as [|x l IH]; intros H; cbn [filter]; [reflexivity|].
+  rewrite (H x (or_introl eq_refl)), IH; [reflexivity|]. intros y Hy. apply H. right. exact Hy.
+Qed.
+
+Lemma filter_all_false {A} (P : A -> bool) l : (forall x, In x l -> P x = false) -> filter P l = [].
+Proof.
+  induction l as [|x l IH]; intros H; cbn [filter]; [reflexivity|].
+  rewrite (H x (or_introl eq_refl)), IH; [reflexivity|]. intros y Hy. apply H. right. exact Hy.
+Qed.
+
+(* what the fold over the children returns, child by child *)
+Lemma kids_marks_inv (F : path -> res marks) : forall ks acc km,
+  kids_marks F ks acc = Ok km ->
+  exists ms, Forall2 (fun k mk => F k = Ok mk) ks ms /\
+             m_visited km = (m_visited acc + fold_right (fun mk s => m_visited mk + s) 0 ms)%Z /\
+             m_todisp km = (m_todisp acc + fold_right (fun mk s => m_todisp mk + s) 0 ms)%Z /\
+             m_pre km = m_pre acc ++ concat (map m_pre ms).
+Proof.
+  induction ks as [|k ks IH]; intros acc km; cbn [kids_marks].
+  - intros [= <-]. exists []. cbn. rewrite app_nil_r. repeat split; try lia. constructor.
+  - destruct (F k) as [mk|] eqn:E; cbn [bind]; [|discriminate]. intros H.
+    destruct (IH _ _ H) as (ms & HF & Hv & Hd & Hp). exists (mk :: ms).
+    cbn [m_visited m_todisp m_pre fold_right map concat] in *. repeat split.
+    + constructor; assumption.
+    + lia.
+    + lia.
+    + rewrite Hp, app_assoc. reflexivity.
+Qed.
+
+Definition anyf (L : list (path * bool)) : bool := existsb snd L.
+
+Record minv (o : opts) (all : list path) (a : path) (m : marks) : Prop := mkMinv {
+  mi_under : forall ab, In ab (m_pre m) -> is_prefix a (fst ab) = true;
+  mi_todisp : m_todisp m = (if anyf (m_pre m) then 1 else 0)%Z;
+  mi_vis : anyf (m_pre m) = true -> m_visited m = 1%Z;
+  mi_vnn : (0 <= m_visited m)%Z;
+  mi_pred : forall y, In (y, true) (m_pre m) -> disp_pred o y = true;
+  mi_cnt : forall y f, In (y, f) (m_pre m) -> counted (m_pre m) all y = true -> f = true
+}.
+
+Lemma disp_pred_mono o a z : is_prefix a z = true -> disp_pred o z = true -> disp_pred o a = true.
+Proof.
+  unfold disp_pred. intros Hp. apply is_prefix_length in Hp. destruct (o_depth o); [|auto].
+  intros H. apply Z.leb_le in H. apply Z.leb_le. lia.
+Qed.
+
+Section Kids.
+  Variable o : opts.
+  Variable all : list path.
+  Variable a : path.
+  Variable n : nat.
+
+  Definition kid_ok (k : path) (mk : marks) : Prop := length k = n /\ minv o all k mk.
+
+  Lemma filter_under_other : forall ks ms k0,
+    Forall2 kid_ok ks ms -> length k0 = n -> ~ In k0 ks ->
+    filter (underf k0) (concat (map m_pre ms)) = [].
+  Proof.
+    induction 1 as [|k mk ks ms [Hl Hk] HF IH]; intros Hl0 Hni; cbn [map concat]; [reflexivity|].
+    rewrite filter_app, IH; [|exact Hl0|intros H; apply Hni; right; exact H].
+    rewrite app_nil_r. apply filter_all_false. intros ab Hab.
+    destruct (underf k0 ab) eqn:E; [|reflexivity]. exfalso. apply Hni. left.
+    apply (same_length_prefix k k0 (fst ab)); [congruence|apply (mi_under _ _ _ _ Hk); exact Hab|exact E].
+  Qed.
+
+  Lemma filter_under_kid : forall ks ms,
+    Forall2 kid_ok ks ms -> NoDup ks ->
+    forall k0 mk0, In (k0, mk0) (combine ks ms) ->
+    filter (underf k0) (concat (map m_pre ms)) = m_pre mk0.
+  Proof.
+    induction 1 as [|k mk ks ms [Hl Hk] HF IH]; intros Hnd k0 mk0 Hin; [destruct Hin|].
+    inversion Hnd as [|? ? Hni Hnd']; subst. cbn [map concat]. rewrite filter_app.
+    destruct Hin as [E|Hin].
+    - injection E as <- <-. rewrite (filter_under_other ks ms k HF Hl Hni), app_nil_r.
+      apply filter_all_true. intros ab Hab. apply (mi_under _ _ _ _ Hk). exact Hab.
+    - rewrite (IH Hnd' k0 mk0 Hin).
+      assert (Hk0 : In k0 ks) by (apply in_combine_l in Hin; exact Hin).
+      assert (Hl0 : length k0 = n).
+      { clear -HF Hk0. induction HF as [|? ? ? ? [H1 _] _ IH']; [destruct Hk0|].
+        destruct Hk0 as [<-|H]; [exact H1|apply IH'; exact H]. }
+      rewrite (filter_all_false (underf k0) (m_pre mk)); [reflexivity|].
+      intros ab Hab. destruct (underf k0 ab) eqn:E; [|reflexivity]. exfalso. apply Hni.
+      rewrite (same_length_prefix k k0 (fst ab)); [exact Hk0|congruence|apply (mi_under _ _ _ _ Hk); exact Hab|exact E].
+  Qed.
+End Kids.
+
+Lemma filter_length_pairs {A B} (G : A -> bool) (H : B -> bool) : forall (ks : list A) (ms : list B),
+  length ks = length ms ->
+  (forall k mk, In (k, mk) (combine ks ms) -> G k = H mk) ->
+  length (filter G ks) = length (filter H ms).
+Proof.
+  induction ks as [|k ks IH]; intros [|mk ms] Hl Hp; try discriminate; [reflexivity|].
+  cbn [filter]. rewrite (Hp k mk (or_introl eq_refl)).
+  assert (E : length (filter G ks) = length (filter H ms)).
+  { apply IH; [cbn in Hl; lia|]. intros k' mk' Hin. apply Hp. right. exact Hin. }
+  destruct (H mk); cbn [length]; rewrite E; reflexivity.
+Qed.
+
+Lemma anyf_app L1 L2 : anyf (L1 ++ L2) = anyf L1 || anyf L2.
+Proof. apply existsb_app. Qed.
+
+Lemma kids_sums o all n : forall ks ms,
+  Forall2 (kid_ok o all n) ks ms ->
+  let d := fold_right (fun mk s => (m_todisp mk + s)%Z) 0%Z ms in
+  let v := fold_right (fun mk s => (m_visited mk + s)%Z) 0%Z ms in
+  d = Z.of_nat (length (filter (fun mk => anyf (m_pre mk)) ms)) /\
+  (0 <= v)%Z /\ ((0 < d)%Z -> (0 < v)%Z) /\
+  anyf (concat (map m_pre ms)) = (0 <? d)%Z.
+Proof.
+  induction 1 as [|k mk ks ms [Hl Hk] HF IH]; cbn [fold_right filter map concat].
+  - cbn. repeat split; lia.
+  - destruct IH as (Hd & Hv & Hdv & Ha). rewrite anyf_app, Ha.
+    pose proof (mi_todisp _ _ _ _ Hk) as Ht. pose proof (mi_vis _ _ _ _ Hk) as Hvis.
+    pose proof (mi_vnn _ _ _ _ Hk) as Hnn.
+    destruct (anyf (m_pre mk)) eqn:Ea; cbn [length orb]; rewrite Ht.
+    + specialize (Hvis eq_refl). split; [lia|split; [lia|split; [lia|]]].
+      symmetry. apply Z.ltb_lt. lia.
+    + split; [lia|split; [lia|split; [lia|]]]. reflexivity.
+Qed.
+
+Lemma Forall2_length' {A B} (R : A -> B -> Prop) l m : Forall2 R l m -> length l = length m.
+Proof. induction 1; cbn; congruence. Qed.
+
+(* children_with_flags of a = the number of children whose sub-list has a mark *)
+Lemma cwf_kids o all a f0 ms :
+  Forall2 (kid_ok o all (S (length a))) (children all a) ms ->
+  cwf ((a, f0) :: concat (map m_pre ms)) all a = length (filter (fun mk => anyf (m_pre mk)) ms).
+Proof.
+  intros HF. unfold cwf. apply filter_length_pairs; [apply (Forall2_length' _ _ _ HF)|].
+  intros k mk Hin.
+  rewrite (existsb_restrict _ k).
+  - cbn [filter]. unfold underf at 1. cbn [fst].
+    assert (Hk : In k (children all a)) by (apply in_combine_l in Hin; exact Hin).
+    assert (E : is_prefix k a = false).
+    { destruct (is_prefix k a) eqn:E; [|reflexivity]. apply is_prefix_length in E.
+      rewrite (children_length _ _ _ Hk) in E. lia. }
+    rewrite E. rewrite (filter_under_kid o all (S (length a)) _ _ HF (children_nodup all a) k mk Hin).
+    unfold anyf. clear -HF Hin.
+    assert (Hu : forall ab, In ab (m_pre mk) -> is_prefix k (fst ab) = true).
+    { revert Hin. induction HF as [|k1 m1 ks ms [_ H1] _ IH]; intros Hin; [destruct Hin|].
+      destruct Hin as [E|Hin]; [injection E as <- <-; apply (mi_under _ _ _ _ H1)|apply IH; exact Hin]. }
+    induction (m_pre mk) as [|ab L IH]; cbn [existsb]; [reflexivity|].
+    rewrite (Hu ab (or_introl eq_refl)), andb_true_r, IH; [reflexivity|].
+    intros x Hx. apply Hu. right. exact Hx.
+  - intros ab H. apply andb_true_iff in H as [_ H]. exact H.
+Qed.
+
+Lemma in_concat_pairs {R : path -> marks -> Prop} : forall ks ms ab,
+  Forall2 R ks ms -> In ab (concat (map m_pre ms)) ->
+  exists k mk, In (k, mk) (combine ks ms) /\ R k mk /\ In ab (m_pre mk).
+Proof.
+  induction 1 as [|k mk ks ms HR HF IH]; cbn [map concat]; [intros []|].
+  intros Hin. apply in_app_or in Hin as [Hin|Hin].
+  - exists k, mk. split; [left; reflexivity|split; assumption].
+  - destruct (IH Hin) as (k' & mk' & H1 & H2 & H3). exists k', mk'. split; [right; exact H1|split; assumption].
+Qed.
+
+Lemma Forall2_impl_in {A B} (R R' : A -> B -> Prop) : forall l m,
+  Forall2 R l m -> (forall x y, In x l -> R x y -> R' x y) -> Forall2 R' l m.
+Proof.
+  induction 1 as [|x y l m HR HF IH]; intros Himp; constructor.
+  - apply Himp; [left; reflexivity|exact HR].
+  - apply IH. intros x' y' Hx'. apply Himp. right. exact Hx'.
+Qed.
+
+Section Node.
+  Variable ord : bool.
+  Variable cp : comm -> Z.
+  Variable o : opts.
+  Variable ps : list posting.
+  Let all := map p_acct ps.
+  Hypothesis Hflat : o_flat o = false.
+
+  Variable a : path.
+  Variable ms : list marks.
+  Hypothesis HF : Forall2 (kid_ok o all (S (length a))) (children all a) ms.
+  Let Lk := concat (map m_pre ms).
+
+  Lemma kid_entry ab :
+    In ab Lk -> exists k mk, In (k, mk) (combine (children all a) ms) /\ minv o all k mk /\
+                            In ab (m_pre mk) /\ In k (children all a).
+  Proof.
+    intros Hin. destruct (in_concat_pairs _ _ _ HF Hin) as (k & mk & H1 & [_ H2] & H3).
+    pose proof (in_combine_l _ _ _ _ H1) as H4.
+    exists k, mk. split; [exact H1|split; [exact H2|split; [exact H3|exact H4]]].
+  Qed.
+
+  Lemma kid_under ab : In ab Lk -> is_prefix a (fst ab) = true /\ (length a < length (fst ab))%nat.
+  Proof.
+    intros Hin. destruct (kid_entry ab Hin) as (k & mk & _ & Hk & Hab & Hkc).
+    pose proof (mi_under _ _ _ _ Hk ab Hab) as Hu. split.
+    - apply (is_prefix_trans a k); [|exact Hu]. apply is_prefix_spec. apply (children_prefix _ _ _ Hkc).
+    - apply is_prefix_length in Hu. rewrite (children_length _ _ _ Hkc) in Hu. lia.
+  Qed.
+
+  Lemma kid_pred y : In (y, true) Lk -> disp_pred o y = true.
+  Proof.
+    intros Hin. destruct (kid_entry _ Hin) as (k & mk & _ & Hk & Hab & _). apply (mi_pred _ _ _ _ Hk y Hab).
+  Qed.
+
+  Lemma kid_cnt fa y f : In (y, f) Lk -> counted ((a, fa) :: Lk) all y = true -> f = true.
+  Proof.
+    intros Hin Hc. destruct (kid_entry _ Hin) as (k & mk & Hpair & Hk & Hab & Hkc).
+    pose proof (mi_under _ _ _ _ Hk _ Hab) as Hu. cbn [fst] in Hu.
+    rewrite (counted_restrict _ all k y Hu) in Hc. cbn [filter] in Hc.
+    assert (E : underf k (a, fa) = false).
+    { unfold underf. cbn [fst]. destruct (is_prefix k a) eqn:E; [|reflexivity].
+      apply is_prefix_length in E. rewrite (children_length _ _ _ Hkc) in E. lia. }
+    rewrite E in Hc.
+    fold Lk in Hc. unfold Lk in Hc.
+    rewrite (filter_under_kid o all (S (length a)) _ _ HF (children_nodup all a) k mk Hpair) in Hc.
+    apply (mi_cnt _ _ _ _ Hk y f Hab Hc).
+  Qed.
+
+  Lemma head_flag fa : flag_of ((a, fa) :: Lk) a = fa.
+  Proof.
+    unfold flag_of. cbn [existsb fst snd]. rewrite (proj2 (path_eqb_eq a a) eq_refl), andb_true_r.
+    assert (E : existsb (fun ab => snd ab && path_eqb (fst ab) a) Lk = false).
+    { destruct (existsb _ Lk) eqn:E; [|reflexivity]. apply existsb_exists in E as (ab & Hin & H).
+      apply andb_true_iff in H as [_ H]. apply path_eqb_eq in H.
+      destruct (kid_under ab Hin) as [_ Hl]. rewrite H in Hl. lia. }
+    rewrite E. apply orb_false_r.
+  Qed.
+
+  Lemma node_inv km m :
+    a <> [] ->
+    m_visited km = fold_right (fun mk s => (m_visited mk + s)%Z) 0%Z ms ->
+    m_todisp km = fold_right (fun mk s => (m_todisp mk + s)%Z) 0%Z ms ->
+    m_pre km = Lk ->
+    mark_node ord cp o ps a km = Ok m -> minv o all a m.
+  Proof.
+    intros Hne Hv Hd Hp.
+    destruct (kids_sums o all _ _ _ HF) as (Sd & Sv & Sdv & Sa). rewrite <- Hd in Sd, Sdv, Sa. rewrite <- Hv in Sv, Sdv.
+    fold Lk in Sa.
+    pose proof (cwf_kids o all a) as Hcwf.
+    unfold mark_node. destruct a as [|s a'] eqn:Ea; [contradiction Hne; reflexivity|]. rewrite <- Ea in *.
+    rewrite Hflat. cbn [negb andb orb].
+    destruct (visited o ps a || (0 <? m_visited km)%Z) eqn:Ec.
+    - destruct (total_of ord o ps a) as [t|]; cbn [bind]; [|discriminate].
+      destruct (display_value ord o (simplified_or_zero t)) as [dt|]; cbn [bind]; [|discriminate].
+      set (shown := _ || _ || _). intros [= <-]. rewrite Hp.
+      assert (Hshown_pred : shown = true -> disp_pred o a = true).
+      { unfold shown. intros H. apply orb_true_iff in H as [H|H].
+        - assert (Hpos : (0 < m_todisp km)%Z).
+          { apply orb_true_iff in H as [H|H]; [apply Z.ltb_lt in H; lia|].
+            apply andb_true_iff in H as [H _]. apply Z.eqb_eq in H. lia. }
+          assert (Hany : anyf Lk = true) by (rewrite Sa; apply Z.ltb_lt; exact Hpos).
+          apply existsb_exists in Hany as ([z fz] & Hin & Hz). cbn [snd] in Hz. subst fz.
+          apply (disp_pred_mono o a z); [apply (kid_under _ Hin)|apply (kid_pred z Hin)].
+        - apply andb_true_iff in H as [_ H]. exact H. }
+      constructor; cbn [m_pre m_todisp m_visited].
+      + intros ab [<-|Hin]; [apply is_prefix_refl|apply (kid_under ab Hin)].
+      + unfold anyf. cbn [existsb snd]. fold (anyf Lk). rewrite Sa.
+        destruct shown eqn:Es; [reflexivity|]. cbn [orb].
+        assert (H1 : (1 <? m_todisp km)%Z = false).
+        { unfold shown in Es. apply orb_false_iff in Es as [Es _]. apply orb_false_iff in Es as [Es _]. exact Es. }
+        apply Z.ltb_ge in H1. destruct (0 <? m_todisp km)%Z eqn:E0.
+        * apply Z.ltb_lt in E0. lia.
+        * apply Z.ltb_ge in E0. lia.
+      + reflexivity.
+      + lia.
+      + intros y [E|Hin]; [injection E as <- Es; apply Hshown_pred; exact Es|apply (kid_pred y Hin)].
+      + intros y f [E|Hin] Hc; [|apply (kid_cnt shown y f Hin Hc)].
+        injection E as <- <-. unfold counted in Hc. rewrite head_flag in Hc.
+        destruct shown eqn:Es; [reflexivity|]. rewrite orb_false_r in Hc.
+        unfold Lk in Hc. rewrite (Hcwf _ ms HF) in Hc. apply Nat.ltb_lt in Hc.
+        unfold shown in Es. apply orb_false_iff in Es as [Es _]. apply orb_false_iff in Es as [Es _].
+        apply Z.ltb_ge in Es. lia.
+    - intros [= <-]. rewrite Hp. apply orb_false_iff in Ec as [Evis Ev0]. apply Z.ltb_ge in Ev0.
+      assert (Hd0 : m_todisp km = 0%Z) by lia.
+      assert (Hany : anyf Lk = false) by (rewrite Sa, Hd0; reflexivity).
+      constructor; cbn [m_pre m_todisp m_visited].
+      + intros ab [<-|Hin]; [apply is_prefix_refl|apply (kid_under ab Hin)].
+      + unfold anyf. cbn [existsb snd orb]. fold (anyf Lk). rewrite Hany. exact Hd0.
+      + unfold anyf. cbn [existsb snd orb]. fold (anyf Lk). rewrite Hany. discriminate.
+      + exact Sv.
+      + intros y [E|Hin]; [discriminate|apply (kid_pred y Hin)].
+      + intros y f [E|Hin] Hc; [|apply (kid_cnt false y f Hin Hc)].
+        injection E as <- <-. unfold counted in Hc. rewrite head_flag, orb_false_r in Hc.
+        unfold Lk in Hc. rewrite (Hcwf _ ms HF) in Hc. apply Nat.ltb_lt in Hc. lia.
+  Qed.
+End Node.
+
+Lemma children_nil_when_deep all a :
+  (forall b, In b all -> is_prefix a b = true -> (length b <= length a)%nat) -> children all a = [].
+Proof.
+  intros H. destruct (children all a) as [|k ks] eqn:E; [reflexivity|].
+  assert (Hk : In k (children all a)) by (rewrite E; left; reflexivity).
+  apply children_in in Hk as (b & Hb & Hp & Hl & _). apply is_prefix_spec in Hp.
+  specialize (H b Hb Hp). lia.
+Qed.
+
+Lemma mark_inv ord cp o ps : o_flat o = false ->
+  forall fuel a m, a <> [] ->
+  (forall b, In b (map p_acct ps) -> is_prefix a b = true -> (length b <= length a + fuel)%nat) ->
+  mark fuel ord cp o ps a = Ok m -> minv o (map p_acct ps) a m.
+Proof.
+  intros Hflat. induction fuel as [|f IH]; intros a m Hne Hb; cbn [mark].
+  - cbn [bind]. intros H.
+    assert (Hch : children (map p_acct ps) a = []).
+    { apply children_nil_when_deep. intros b Hin Hp. specialize (Hb b Hin Hp). lia. }
+    apply (node_inv ord cp o ps Hflat a [] (eq_ind_r (fun l => Forall2 _ l []) (Forall2_nil _) Hch)
+             (mkMarks 0 0 []) m Hne eq_refl eq_refl eq_refl H).
+  - destruct (kids_marks (mark f ord cp o ps) (children (map p_acct ps) a) (mkMarks 0 0 [])) as [km|] eqn:Ek;
+      cbn [bind]; [|discriminate].
+    destruct (kids_marks_inv _ _ _ _ Ek) as (ms & HF & Hv & Hd & Hp). cbn [m_visited m_todisp m_pre app] in *.
+    intros H.
+    assert (HF' : Forall2 (kid_ok o (map p_acct ps) (S (length a))) (children (map p_acct ps) a) ms).
+    { apply (Forall2_impl_in _ _ _ _ HF). intros k mk Hk Hmk.
+      pose proof (children_length _ _ _ Hk) as Hl. split; [exact Hl|].
+      apply (IH k mk); [intros ->; discriminate Hl| |exact Hmk].
+      intros b Hin Hpk.
+      assert (Hpa : is_prefix a b = true).
+      { apply (is_prefix_trans a k); [|exact Hpk]. apply is_prefix_spec. apply (children_prefix _ _ _ Hk). }
+      specialize (Hb b Hin Hpa). lia. }
+    apply (node_inv ord cp o ps Hflat a ms HF' km m Hne); try assumption; lia.
+Qed.
+
+(* in tree form every displayed level is a printed line: the hypothesis of layout_reads_back
+   always holds *)
+Lemma layout_ok_holds ord cp o ps :
+  o_flat o = false -> layout_ok ord cp o ps = Ok true.
+Proof.
+  intros Hflat. unfold layout_ok.
+  destruct (mark_ok ord cp o ps (max_depth ps) []) as [m Em]. rewrite Em. cbn [bind]. f_equal.
+  apply forallb_forall. intros [y f] Hin. cbn [fst]. destruct y as [|s y']; [reflexivity|].
+  set (y := s :: y') in *. set (all := map p_acct ps).
+  pose proof (mark_pre _ _ _ _ _ _ _ Em) as Hpre. fold all in Hpre.
+  assert (Hnd : NoDup (map fst (m_pre m))) by (rewrite Hpre; apply pre_nodup).
+  rewrite (flag_of_unique _ _ _ Hnd Hin).
+  destruct (counted (m_pre m) all y) eqn:Hc; [|reflexivity]. cbn [implb].
+  (* the root's children *)
+  revert Em. destruct (max_depth ps) as [|fu] eqn:Efu; cbn [mark]; fold all.
+  - cbn [bind mark_node]. intros [= <-]. cbn [m_pre] in Hin. destruct Hin as [E|[]]. discriminate.
+  - destruct (kids_marks (mark fu ord cp o ps) (children all []) (mkMarks 0 0 [])) as [km|] eqn:Ek;
+      cbn [bind mark_node]; [|intros H0; discriminate H0].
+    intros [= <-]. cbn [m_pre] in *.
+    destruct (kids_marks_inv _ _ _ _ Ek) as (ms & HF & _ & _ & Hp). cbn [m_pre app] in Hp.
+    assert (HF' : Forall2 (kid_ok o all 1) (children all []) ms).
+    { apply (Forall2_impl_in _ _ _ _ HF). intros k mk Hk Hmk.
+      pose proof (children_length _ _ _ Hk) as Hl. split; [exact Hl|].
+      apply (mark_inv ord cp o ps Hflat fu k mk); [intros ->; discriminate Hl| |exact Hmk].
+      intros b Hb _. apply in_map_iff in Hb as (p & <- & Hp'). pose proof (max_depth_bound ps p Hp'). lia. }
+    destruct Hin as [E|Hin]; [discriminate|]. rewrite Hp in Hin, Hc.
+    destruct (in_concat_pairs _ _ _ HF' Hin) as (k & mk & Hpair & [_ Hk] & Hab).
+    pose proof (mi_under _ _ _ _ Hk _ Hab) as Hu. cbn [fst] in Hu.
+    rewrite (counted_restrict _ all k y Hu) in Hc. cbn [filter] in Hc.
+    assert (E : underf k ([], false) = false).
+    { unfold underf. cbn [fst]. pose proof (in_combine_l _ _ _ _ Hpair) as Hkc.
+      pose proof (children_length _ _ _ Hkc). destruct k; [discriminate|reflexivity]. }
+    rewrite E in Hc.
+    rewrite (filter_under_kid o all 1 _ _ HF' (children_nodup all []) k mk Hpair) in Hc.
+    pose proof (mi_cnt _ _ _ _ Hk y f Hab Hc) as ->. cbn [andb].
+    apply (mi_pred _ _ _ _ Hk y Hab).
+Qed.
+
+Lemma layout_reads_back_uncond ord cp o ps rows :
+  o_flat o = false ->
+  bal_layout ord cp o ps = Ok rows ->
+  read_tree [] (map (fun l => (l_spacer l, l_partial l)) rows) = map l_acct rows.
+Proof.
+  intros Hflat. apply layout_reads_back_gen; [exact Hflat|apply layout_ok_holds; exact Hflat].
 Qed.
